@@ -12,7 +12,8 @@ EXTENDS MixedGraph, TLC, Json, Randomization
 CONSTANTS Family,      \* "M3" | "M2" | "A4" | "RND"
           Depth,       \* length of the behaviours
           RndN,        \* number of nodes for the random family
-          RndK         \* number of random initial graphs
+          RndK,        \* number of random initial graphs
+          Mutators     \* enable the in-place mutators (walk configurations)
 
 VARIABLES g, hist
 
@@ -72,6 +73,19 @@ PreA(S)         == Acyc /\ SmallEnough /\ S # {} /\
 PathsA(S, T)    == S # {} /\ T # {} /\ S \cap T = {} /\ SmallEnough /\
                    Obs("get_nodes_in_directed_paths", <<S, T>>, NodesOnDirectedPaths(g, S, T))
 
+\* in-place mutators of the live object (add_node / add_directed_edge / add_undirected_edge): the program keeps holding
+\* the same object, whose value is now the larger graph; every later observation must be the one of the *current*
+\* value (nothing computed before the mutation may survive).  Only in walks (Mutators), never in the depth-1 family.
+MaxNode == IF g.n = {} THEN 1 ELSE Max(g.n) + 1
+AddNodeA(v)     == v \notin g.n /\ Step("add_node", {v}, MkG(g.n \cup {v}, g.d, g.b))
+AddDirA(u, v)   == u # v /\ <<u, v>> \notin g.d /\
+                   Step("add_directed_edge", <<u, v>>, MkG(g.n \cup {u, v}, g.d \cup {<<u, v>>}, g.b))
+AddBiA(u, v)    == u < v /\ {u, v} \notin g.b /\
+                   Step("add_undirected_edge", <<u, v>>, MkG(g.n \cup {u, v}, g.d, g.b \cup {{u, v}}))
+Mutate == /\ Mutators
+          /\ \/ AddNodeA(MaxNode)
+             \/ \E u \in g.n \cup {MaxNode} : \E v \in g.n \cup {MaxNode} : AddDirA(u, v) \/ AddBiA(u, v)
+
 \* further helpers (diagnostic observations)
 DistrictOfA(v)  == Obs("get_district", {v}, District(g, v))
 NoEffectA(S, T) == S # {} /\ T # {} /\ S \cap T = {} /\ Obs("get_no_effect_on_outcomes", <<S, T>>, NoEffectOnOutcomes(g, S, T))
@@ -91,6 +105,7 @@ Next ==
           \/ \E T \in SUBSET g.n : PathsA(S, T)
      \/ Moral \/ DistrictsA \/ DisorientA \/ TopoA
      \/ \E v \in g.n : DistrictOfA(v) \/ AFixA(v) \/ PFixA(v)
+     \/ Mutate
      \/ \E S \in SUBSET g.n : \E T \in SUBSET g.n : NoEffectA(S, T) \/ IntAncA(S, T)
 
 Spec == Init /\ [][Next]_vars
@@ -99,7 +114,12 @@ Spec == Init /\ [][Next]_vars
 TypeOK == WellFormed(g)
 Laws   == LawPartition(g) /\ \A S \in SUBSET g.n : LawClosure(g, S) /\ LawSurgery(g, S)
 \* node sets only ever shrink along a behaviour, observations never change the state
-NodesShrink == [][g'.n \subseteq g.n]_vars
+NodesShrink == [][(hist'[Len(hist')].op \notin {"add_node", "add_directed_edge", "add_undirected_edge"}) => g'.n \subseteq g.n]_vars
+\* a mutator adds exactly what it names and keeps everything else
+MutatorsGrow == [][(hist'[Len(hist')].op \in {"add_node", "add_directed_edge", "add_undirected_edge"})
+                   => (g.n \subseteq g'.n /\ g.d \subseteq g'.d /\ g.b \subseteq g'.b
+                       /\ Cardinality(g'.d) + Cardinality(g'.b) <= Cardinality(g.d) + Cardinality(g.b) + 1
+                       /\ Cardinality(g'.n) <= Cardinality(g.n) + 2)]_vars
 
 \* ------------------------------------------------------------------ behaviour export
 Emit == (Len(hist) = Depth + 1) => PrintT(<<"BEH", ToJson(hist)>>)
